@@ -972,36 +972,41 @@ func main() {
 			}
 		}
 
-		// ---- 3. the connection field, exhaustively over small sets, int cursors
-		for k := 0; k <= maxK; k++ {
-			base := smallSet(k)
-			type cnt struct{ first, last countArg }
-			var counts []cnt
-			counts = append(counts, cnt{}, cnt{val(0), val(0)}, cnt{val(1), val(1)}, cnt{val(k + 1), val(0)}, cnt{val(-1), val(1)}, cnt{val(1), val(-1)})
-			for c := -1; c <= k+1; c++ {
-				counts = append(counts, cnt{val(c), countArg{}}, cnt{countArg{}, val(c)})
-			}
-			cursors := []cursorArg{{}}
-			for c := 5; c <= 10*k+5; c += 5 {
-				cursors = append(cursors, cursorOf(c))
-			}
-			if k <= 2 {
-				// the literal null and the empty string both mean "no cursor"
-				cursors = append(cursors, cursorArg{mode: 1}, cursorArg{mode: 2, str: "", known: true})
-			}
-			for _, key := range allKeys("int") {
-				for _, c := range counts {
-					for _, after := range cursors {
-						for _, before := range cursors {
-							key, c, after, before := key, c, after, before
-							h.Case(func(r *rng.R) sexp.Node {
-								q := request{first: c.first, last: c.last, after: after, before: before, sel: fullSel}
-								zero := (c.first.mode == 2 && c.first.val == 0) || (c.last.mode == 2 && c.last.val == 0)
-								if zero || r.Chance(1, 8) {
-									q.sel = rng.Pick(r, selections)
-								}
-								return connCase(setup{key: key, edges: shuffle(r, base), policy: r.Intn(5)}, q, r)
-							})
+		// ---- 3. the connection field, exhaustively over small sets, int cursors.  All synchronous
+		// cases come before the promise cases: a panic of the code under test is caught by the
+		// harness (and written out as an observation) only on the request's own goroutine; in
+		// promise mode it would kill the process.
+		for _, promise := range []bool{false, true} {
+			for k := 0; k <= maxK; k++ {
+				base := smallSet(k)
+				type cnt struct{ first, last countArg }
+				var counts []cnt
+				counts = append(counts, cnt{}, cnt{val(0), val(0)}, cnt{val(1), val(1)}, cnt{val(k + 1), val(0)}, cnt{val(-1), val(1)}, cnt{val(1), val(-1)})
+				for c := -1; c <= k+1; c++ {
+					counts = append(counts, cnt{val(c), countArg{}}, cnt{countArg{}, val(c)})
+				}
+				cursors := []cursorArg{{}}
+				for c := 5; c <= 10*k+5; c += 5 {
+					cursors = append(cursors, cursorOf(c))
+				}
+				if k <= 2 {
+					// the literal null and the empty string both mean "no cursor"
+					cursors = append(cursors, cursorArg{mode: 1}, cursorArg{mode: 2, str: "", known: true})
+				}
+				for _, key := range []apiKey{{"int", true, promise}, {"int", false, promise}} {
+					for _, c := range counts {
+						for _, after := range cursors {
+							for _, before := range cursors {
+								key, c, after, before := key, c, after, before
+								h.Case(func(r *rng.R) sexp.Node {
+									q := request{first: c.first, last: c.last, after: after, before: before, sel: fullSel}
+									zero := (c.first.mode == 2 && c.first.val == 0) || (c.last.mode == 2 && c.last.val == 0)
+									if zero || r.Chance(1, 8) {
+										q.sel = rng.Pick(r, selections)
+									}
+									return connCase(setup{key: key, edges: shuffle(r, base), policy: r.Intn(5)}, q, r)
+								})
+							}
 						}
 					}
 				}
